@@ -22,7 +22,8 @@ struct in_p5 {
     unsigned mask, probe;            /* feature state, frame probe */
     unsigned coin;
     char str[NS];                    /* caller's phrase (content irrelevant to the skeleton) */
-    char norm[NS];                   /* what normalisation delivers */
+    char norm[NS];                   /* what normalisation delivers (first bytes) */
+    unsigned norm_len;               /* ... and its length, up to POLYSEED_STR_SIZE-1 (the longest phrase fills the buffer) */
     int count;                       /* what the tokeniser returns */
     unsigned status;                 /* what word lookup returns */
     unsigned idx[16];
@@ -40,15 +41,21 @@ static const char* S_nfkd_str; static char* S_nfkd_norm; static char* S_split_st
 static const char** S_split_words; static const char* const* S_pd_phrase; static const polyseed_lang* S_pde_lang;
 
 size_t __CPROVER_file_local_dependency_h_utf8_nfkd_lazy(const char* str, polyseed_str norm) {
-    S_nfkd_calls++; S_nfkd_str = str; S_nfkd_norm = norm;
+    S_nfkd_calls++; S_nfkd_str = str; S_nfkd_norm = norm; DEP_TICK();
     size_t n = 0;
     while (n < NS - 1 && G.norm[n] != '\0') { norm[n] = G.norm[n]; n++; }
+    if (n == NS - 1) {
+        /* a longer string: filler up to the symbolic length (contract of P3: the
+         * result is NUL-terminated inside the buffer and its length is returned) */
+        size_t len = G.norm_len % POLYSEED_STR_SIZE;
+        for (size_t i = NS - 1; i < POLYSEED_STR_SIZE - 1; ++i) if (i < len) { norm[i] = 'x'; n = i + 1; }
+    }
     norm[n] = '\0';
     return n;
 }
 
 int __CPROVER_file_local_polyseed_c_str_split(char* str, polyseed_phrase words) {
-    S_split_calls++; S_split_str = str; S_split_words = words;
+    S_split_calls++; S_split_str = str; S_split_words = words; DEP_TICK();
     int c = G.count;
     for (int i = 0; i < 16 && i < c; ++i) words[i] = str;   /* some pointers into the buffer */
     return c;
@@ -62,14 +69,14 @@ static polyseed_status phrase_common(uint_fast16_t idx_out[16]) {
 
 polyseed_status polyseed_phrase_decode(const polyseed_phrase phrase,
     uint_fast16_t idx_out[POLYSEED_NUM_WORDS], const polyseed_lang** lang_out) {
-    S_pd_calls++; S_pd_phrase = phrase;
+    S_pd_calls++; S_pd_phrase = phrase; DEP_TICK();
     if (G.status == POLYSEED_OK && lang_out != NULL) *lang_out = LANG_A;
     return phrase_common(idx_out);
 }
 
 polyseed_status polyseed_phrase_decode_explicit(const polyseed_phrase phrase,
     const polyseed_lang* lang, uint_fast16_t idx_out[POLYSEED_NUM_WORDS]) {
-    S_pde_calls++; S_pd_phrase = phrase; S_pde_lang = lang;
+    S_pde_calls++; S_pd_phrase = phrase; S_pde_lang = lang; DEP_TICK();
     return phrase_common(idx_out);
 }
 
